@@ -264,6 +264,26 @@ def witness_instances(rep, ctx, wanted, prop):
         rep.infra_errors.append('witness crate did not build: ' + tail[-400:])
 
 
+def c09(ctx, rep):
+    crate = ctx.crate('dbg')
+    for a in MODEL_ASSUMPTIONS:
+        rep.assume(a)
+    rep.assume('the reference terms of Periodic / Constrained provided_service and service_time were checked by hand against the '
+               'worst-case budget placement (first blackout 2(P-B) resp. (P-B)+(D-B), then B units of service per period); that the '
+               'closed forms equal the minimum over ALL placements for all parameters is arithmetic and is not decided')
+    model_rules(rep)
+    rep.rule('ST-INIT/ST-RET/ST-STEP', 'default service_time: starts at t = demand, returns t exactly when provided_service(t) >= demand, advances by demand - supply')
+    n = rules_models.check_ref(rep, crate, 'C09')
+    rules_fp.check_default_service_time(rep, crate)
+    rep.floor('reference summaries compared', n, 15)
+    return ('Static analysis of supply/: the closed-form supply-bound functions and their closed-form inverses (Periodic, '
+            'Constrained, Dedicated), the constructors\' precondition asserts and the forwarding impls are summarised as canonical '
+            'terms and compared with reviewed references; the generic jump-ahead inverse is decided by its one-iteration loop '
+            'summary. Decides that the code computes the reviewed closed forms (any edit to them is reported); does NOT '
+            'decide that these closed forms equal the minimum service over all budget placements, nor that service_time is the '
+            'exact inverse for every demand -- those are facts about values.')
+
+
 def c10(ctx, rep):
     crate = ctx.crate('dbg')
     for a in MODEL_ASSUMPTIONS:
@@ -468,7 +488,7 @@ def c17(ctx, rep):
 
 PROPS = {
     'C17': c17,
-    'C10': c10, 'C11': c11, 'C12': c12, 'C13': c13, 'C14': c14, 'C16': c16,
+    'C09': c09, 'C10': c10, 'C11': c11, 'C12': c12, 'C13': c13, 'C14': c14, 'C16': c16,
     'C20': c20,
     'C04': ros2_prop(['ecrts19'], 'safe', 'C04', 40),
     'C05': ros2_prop(['rr', 'bw'], 'safe', 'C05', 25),
